@@ -1,2 +1,88 @@
-(** C01 — placeholder until the round-trip theorems are proved (see Proofs/). *)
-From SF Require Import Model.Bytes.
+(** C01 — Write-then-read round trip preserves every shape exactly.
+    Statements only; proofs in Proofs/RoundTrip.v, Proofs/OnRead.v (sequential
+    route) and Proofs/IndexReader.v (routes through the index). *)
+From SF Require Import Model.Bytes Model.F64 Model.ShapeType Model.Shapes Model.Res Model.Encode Model.F64Arith
+  Model.Construct Model.Writer Model.Prog Model.Decode Model.Reader Spec.Esri Spec.Denote Spec.Layout.
+From SF Require Import Proofs.ReaderSeq Proofs.WriterInv Proofs.EncodeRef Proofs.LayoutConf Proofs.RoundTrip Proofs.OnRead.
+From SF Require Import Properties.C02.
+Open Scope Z_scope.
+
+(** Any history of writes (and finalizes) of well-formed shapes, then reading
+    the produced .shp sequentially — generic reader, or the typed reader of
+    the file's type — yields the header that was written, exactly one item per
+    written shape, in order, each [on_read] of the written value, and then
+    ends.  Guards: the file length fits its field and every record is below
+    2 GiB (what the reader accepts). *)
+Theorem C01_roundtrip_seq : forall (hs : bool) (cs : list wcall) (e : wending) (req : option shape_type) (trailing : bytes),
+  Forall call_wf cs ->
+  let ss := accepted_acc [] cs in
+  FileFits ss -> RecordsFit ss ->
+  (req = None \/ req = Some (file_type ss)) ->
+  exists st s',
+    run (st <-- r_new ;; x <-- it_pull (S (length ss)) req st ;; Ret (r_hdr st, x))
+        (src_of (fst (files (snd (run_history hs world0 cs e))) ++ trailing))
+    = (Ok (header_of (file_type ss) (box8 (h_box (final_hdr ss))) (file_words ss),
+           (map (fun s => Ok (on_read s)) ss, true, st)), s').
+Proof.
+  intros hs cs e req trailing Hwf ss Hf Hr Hreq.
+  rewrite (history_files hs cs e (call_wf_ok cs Hwf)). cbn [fst]. fold ss.
+  apply written_then_read_seq; [apply accepted_wf, Hwf|apply accepted_one_type0|exact Hf|exact Hr|exact Hreq].
+Qed.
+Print Assumptions C01_roundtrip_seq.
+
+(** What [on_read] keeps, clause by clause. *)
+Theorem C01_same_type : forall s, type_of (on_read s) = type_of s /\ shape_dim (on_read s) = shape_dim s.
+Proof. exact on_read_type. Qed.
+Print Assumptions C01_same_type.
+
+Theorem C01_xyz_bit_identical : forall s,
+  map (map (xyz_of (shape_dim s))) (shape_parts (on_read s)) = map (map (xyz_of (shape_dim s))) (shape_parts s).
+Proof. exact on_read_xyz. Qed.
+Print Assumptions C01_xyz_bit_identical.
+
+Theorem C01_measures : forall s,
+  map (map (m_of (shape_dim s))) (shape_parts (on_read s))
+  = map (map (fun p => if is_point s then m_of (shape_dim s) p
+                       else if has_m_dim (shape_dim s) then read_m_norm (pm p) else 0)) (shape_parts s).
+Proof. exact on_read_measures. Qed.
+Print Assumptions C01_measures.
+
+Theorem C01_measure_rule : forall v,
+  read_m_norm v = (if f64_is_nan v || f64_le v F_NO_DATA then F_NO_DATA else v).
+Proof. exact read_m_norm_spec. Qed.
+Print Assumptions C01_measure_rule.
+
+Theorem C01_kinds_and_box : forall s,
+  patch_kinds (on_read s) = patch_kinds s /\
+  shape_box (on_read s) = match shape_box s with Some b => Some (clean_box (shape_dim s) b) | None => None end.
+Proof. intros s. split; [apply on_read_kinds|apply on_read_box]. Qed.
+Print Assumptions C01_kinds_and_box.
+
+(** Ring roles are those of the vertex order as stored (the orientation test
+    sees X and Y only, which are unchanged). *)
+Theorem C01_roles : forall d b rings,
+  on_read (SPolygon d b rings)
+  = SPolygon d (clean_box d b) (map (fun r => (ring_role (snd r), map (norm_pt d) (snd r))) rings).
+Proof.
+  intros d b rings. rewrite on_read_roles. f_equal. apply map_ext. intros r. rewrite ring_role_norm. reflexivity.
+Qed.
+Print Assumptions C01_roles.
+
+(** Non-vacuity: a PolygonM file with a NaN measure; the model reader run on the writer's bytes. *)
+Definition ex_nan : f64 := 9221120237041090560.
+Definition ex_poly : shape :=
+  SPolygon XYM (mkbox (mkpt 0 0 0 7) (mkpt 4607182418800017408 4607182418800017408 0 8))
+    [(Outer, [mkpt 0 0 0 ex_nan; mkpt 0 4607182418800017408 0 7; mkpt 4607182418800017408 4607182418800017408 0 8;
+              mkpt 0 0 0 ex_nan])].
+Example C01_example :
+  let cs := [CWrite ex_poly; CFinalize; CWrite ex_poly] in
+  Forall call_wf cs /\ FileFits (accepted_acc [] cs) /\ RecordsFit (accepted_acc [] cs) /\
+  fst (run (st <-- r_new ;; x <-- it_pull 3 None st ;; Ret (fst (fst x)))
+           (src_of (fst (files (snd (run_history true world0 cs EDrop))))))
+  = Ok [Ok (on_read ex_poly); Ok (on_read ex_poly)] /\
+  map (map pm) (shape_parts (on_read ex_poly)) = [[F_NO_DATA; 7; 8; F_NO_DATA]].
+Proof.
+  cbv zeta. split.
+  - repeat constructor; unfold f64_ok, two64, ex_nan; cbn; lia.
+  - split; [vm_compute; reflexivity|]. split; [repeat constructor|]. split; vm_compute; reflexivity.
+Qed.
